@@ -159,3 +159,85 @@ package io
 //@   ensures [memory_position] dec.reader == nil ==> dec.head == old(dec.head) + len(data) + 1 || (dec.Error != nil && dec.head == dec.tail)
 //@   ensures [unsafe_result_is_a_view_of_the_window] !safe ==> arr(data) == arr(dec.buf) && len(data) <= len(dec.buf)
 //@   ensures [safe_result_is_private] safe && data != nil ==> isnew(arr(data))
+
+//@ func (*Decoder).UnsafeUntil
+//@   prop C04 C05
+//@   nopanic
+//@   use decwf
+//@   let lp0 = ghost.rpos[ival(dec.reader)] - dec.tail + dec.head
+//@   modifies @DECWIN, dec.buf[*]
+//@   ensures [stream_position] dec.reader != nil ==> ghost.rpos[ival(dec.reader)] - dec.tail + dec.head == lp0 + len(data) + 1 ||
+//@       (dec.Error != nil && ghost.rpos[ival(dec.reader)] - dec.tail + dec.head == lp0 + len(data))
+//@   ensures [stream_content] dec.reader != nil ==> forall(j, off(data), off(data) + len(data), mem(data, j) == ghost.rstream[ival(dec.reader)][lp0 - off(data) + j])
+//@   ensures [stops_at_the_first_delimiter] forall(j, off(data), off(data) + len(data), mem(data, j) != delim)
+//@   ensures [memory_position] dec.reader == nil ==> dec.head == old(dec.head) + len(data) + 1 || (dec.Error != nil && dec.head == dec.tail)
+
+//@ func (*Decoder).Until
+//@   prop C04 C05 C14
+//@   nopanic
+//@   use decwf
+//@   let lp0 = ghost.rpos[ival(dec.reader)] - dec.tail + dec.head
+//@   modifies @DECWIN, dec.buf[*]
+//@   atmake [allocation_bounded_by_what_was_read] makecap <= len(dec.buf)
+//@   ensures [stream_position] dec.reader != nil ==> ghost.rpos[ival(dec.reader)] - dec.tail + dec.head == lp0 + len(result) + 1 ||
+//@       (dec.Error != nil && ghost.rpos[ival(dec.reader)] - dec.tail + dec.head == lp0 + len(result))
+//@   ensures [stream_content] dec.reader != nil ==> forall(j, off(result), off(result) + len(result), mem(result, j) == ghost.rstream[ival(dec.reader)][lp0 - off(result) + j])
+//@   ensures [stops_at_the_first_delimiter] forall(j, off(result), off(result) + len(result), mem(result, j) != delim)
+//@   ensures [result_never_aliases_the_input] result != nil ==> isnew(arr(result))
+
+// Remains: everything that is left; ends with an error recorded (end of input is how it ends)
+//@ func (*Decoder).Remains
+//@   prop C04 C05
+//@   nopanic
+//@   use decwf
+//@   let lp0 = ghost.rpos[ival(dec.reader)] - dec.tail + dec.head
+//@   modifies @DECWIN, dec.buf[*]
+//@   loop 1 invariant [shape] (data == nil || isnew(arr(data))) && arr(data) != arr(dec.buf) && 0 <= dec.head && dec.head <= dec.tail && dec.tail <= len(dec.buf)
+//@   loop 1 invariant [position] dec.reader != nil ==> ghost.rpos[ival(dec.reader)] - dec.tail + dec.head == lp0 + len(data) && len(dec.buf) > 0 && ghost.rpos[ival(dec.reader)] >= dec.tail
+//@   loop 1 invariant [coupling] dec.reader != nil ==> forall(j, off(dec.buf) + dec.head, off(dec.buf) + dec.tail, mem(dec.buf, j) == ghost.rstream[ival(dec.reader)][ghost.rpos[ival(dec.reader)] - dec.tail - off(dec.buf) + j])
+//@   loop 1 invariant [data_is_the_stream] dec.reader != nil ==> forall(j, off(data), off(data) + len(data), mem(data, j) == ghost.rstream[ival(dec.reader)][lp0 - off(data) + j])
+//@   loop 1 invariant [memory] dec.reader == nil ==> same(dec.buf, old(dec.buf)) && dec.tail == old(dec.tail)
+//@   loop 1 invariant [sticky] old(dec.Error) != nil ==> dec.Error != nil
+//@   loop 1 invariant [bufid] arr(dec.buf) == old(arr(dec.buf)) || isnew(arr(dec.buf))
+//@   ensures [ends_at_the_end_of_input] dec.Error != nil
+//@   ensures [stream_position] dec.reader != nil ==> ghost.rpos[ival(dec.reader)] - dec.tail + dec.head == lp0 + len(data)
+//@   ensures [stream_content] dec.reader != nil ==> forall(j, off(data), off(data) + len(data), mem(data, j) == ghost.rstream[ival(dec.reader)][lp0 - off(data) + j])
+//@   ensures [result_never_aliases_the_input] data != nil ==> isnew(arr(data))
+
+// ---- (re)initialisation establishes the window invariant ---------------------------------
+
+//@ func NewDecoder
+//@   prop C04 C05
+//@   nopanic
+//@   ensures [window_is_the_whole_input] result != nil && isnew(result) && result.reader == nil && same(result.buf, input) && result.head == 0 && result.tail == len(input) && result.Error == nil
+
+//@ func NewDecoderFromReader
+//@   prop C04 C05
+//@   nopanic
+//@   ensures [empty_window_with_room] result != nil && isnew(result) && same(result.reader, reader) && result.head == 0 && result.tail == 0 && len(result.buf) >= 256 && result.Error == nil && isnew(arr(result.buf))
+
+//@ func (*Decoder).ResetBytes
+//@   prop C04 C05
+//@   nopanic
+//@   requires dec != nil
+//@   modifies dec.reader, dec.buf, dec.head, dec.tail
+//@   ensures [window_is_the_whole_input] result == dec && dec.reader == nil && same(dec.buf, input) && dec.head == 0 && dec.tail == len(input)
+
+// a buffer that was the caller's input (memory mode) is never adopted as the read buffer
+//@ func (*Decoder).ResetReader
+//@   prop C04 C05 C14
+//@   nopanic
+//@   requires dec != nil
+//@   modifies dec.reader, dec.buf, dec.head, dec.tail
+//@   ensures [empty_window] result == dec && same(dec.reader, reader) && dec.head == 0 && dec.tail == 0
+//@   ensures [reader_mode_buffer_has_room] dec.reader != nil ==> dec.buf == nil || len(dec.buf) > 0
+//@   ensures [callers_input_is_not_adopted_as_read_buffer] old(dec.reader) == nil ==> dec.buf == nil
+
+//@ func (*Decoder).ResetBuffer
+//@   prop C04 C14
+//@   nopanic
+//@   requires dec != nil
+//@   modifies dec.reader, dec.buf, dec.head, dec.tail, dec.Error, dec.RealType, dec.LongType, dec.MapType, dec.StructType, dec.ListType
+//@   ensures [nothing_of_the_last_use_is_kept] result == dec && dec.reader == nil && dec.head == 0 && dec.tail == 0 && dec.Error == nil &&
+//@       dec.RealType == 0 && dec.LongType == 0 && dec.MapType == 0 && dec.StructType == 0 && dec.ListType == 0
+//@   ensures [callers_input_is_released] old(dec.reader) == nil ==> dec.buf == nil
